@@ -87,6 +87,7 @@ type GuardDecl struct {
 	Type   string // struct type, e.g. server
 	Field  string // guarded field
 	Lock   string // lock field in the same struct
+	LockType string // struct type holding the lock (== Type unless the lock lives in another object)
 	Reads  []string
 	Writes []string
 	Pkg    string
@@ -395,7 +396,7 @@ func (cs *ContractSet) parseContractText(file, pkgName string, text string) erro
 			}
 			i := strings.LastIndex(f[0], ".")
 			j := strings.LastIndex(f[1], ".")
-			g := GuardDecl{Type: f[0][:i], Field: f[0][i+1:], Lock: f[1][j+1:], Pkg: pkgName}
+			g := GuardDecl{Type: f[0][:i], Field: f[0][i+1:], Lock: f[1][j+1:], LockType: f[1][:j], Pkg: pkgName}
 			for _, x := range f[2:] {
 				if strings.HasPrefix(x, "read=") {
 					g.Reads = strings.Split(x[5:], ",")
